@@ -31,7 +31,7 @@ def closures(tier: str) -> List[Dict[str, Any]]:
     n = 0
     for c in c15.all_cases("quick"):
         n += 1
-        if "extra" in c or c["core"] or tier == "thorough" or n % 9 == 0:
+        if "extra" in c or c["core"] or tier == "thorough" or n % 18 == 0:
             out.append({"files": defx.Program(c15.case_files(c)).to_json()["files"], "kw": {"import_coredefs": c["core"]}, "label": c15._describe(c),
                         "feats": c15.features(c["defs"]) if "defs" in c else c15.EXTRA_FEATURES.get(c["extra"], [])})
     seqs = c04.sequences("quick")[:: 40]
